@@ -9,8 +9,8 @@ DESIGN_REF = 'DESIGN.md section 4, C15'
 SINGLE_OUTCOME_OK = False
 BOUNDS = {
     'quick': 'N=12: all n in 0..12, start/stop in {None,-12..12}, step in {None,1..12}; Sample(k) k in 1..26, n in 0..24; '
-             'option strings: all sequences of <=4 tokens from a 9 token alphabet joined by commas + every single token',
-    'thorough': 'N=24 (slices), Sample(k) k in 1..50, n in 0..48; option strings: <=5 tokens from an 11 token alphabet',
+             'option strings: all sequences of <=4 tokens from a 12 token alphabet joined by commas + every single token',
+    'thorough': 'N=24 (slices), Sample(k) k in 1..50, n in 0..48; option strings: <=5 tokens from a 14 token alphabet',
 }
 RULE = ('(also: one selector object applied to every length in turn, ascending then descending, as one --frame-slice option is applied to every frame array) full product of (n, start, stop, step) / (k, n) / comma-joined token sequences, each enumerated once; '
         'non-trivial = the selection is non-empty and not the whole sequence (slices, samples) or the string has a comma '
@@ -18,7 +18,7 @@ RULE = ('(also: one selector object applied to every length in turn, ascending t
 ASSUMPTIONS = ['Slice.last()/Sample.last() are not in the statement (pinned by the suite) and are exercised only through C11',
                'a step <= 0 in an option string is neither required to be accepted nor rejected']
 
-TOKENS_Q = ['', '1', '-2', '0', 'None', ' 3 ', 'x', '1.5', '+4']
+TOKENS_Q = ['', '1', '-2', '0', 'None', ' 3 ', 'x', '1.5', '+4', 'None7', '6None4', 'NoneNone']   # the last three: the word None run together with other text
 TOKENS_T = TOKENS_Q + ['12', 'none']
 
 
